@@ -2,6 +2,9 @@
    model's output.  Used by the kernel judge (cases_*.v, vm_compute) and by the extracted driver. *)
 From Spl Require Export Judge.Dump.
 From Spl Require Model.Lifecycle Model.Doc.
+From Spl Require Judge.RunCodec.
+From Spl Require Judge.RunBroker.
+From Spl Require Import Judge.DumpAst Model.Parser.
 
 Fixpoint take_bytes (n : N) (s : text) (fuel : nat) : option text :=
   if n =? 0 then Some [] else
@@ -41,6 +44,17 @@ Definition run_update (args : list N) : list N :=
       | _ => [4]
       end
   | _ => [4]
+  end.
+
+Definition run_parse (args : list N) : list N :=
+  match lex args with
+  | Some toks =>
+      match parse toks with
+      | Done p => 0 :: enc_program p
+      | Panic => [1]
+      | OutOfFuel => [2]
+      end
+  | None => [2]
   end.
 
 (* ---- C18: [clean; (isreq, method)*]; request ids are the 1-based message positions ---- *)
@@ -115,5 +129,10 @@ Definition judge_run (cmd : list N) : list N :=
   | 4 :: args => DC.run_gii args
   | 5 :: args => DC.run_pos args
   | 6 :: args => DC.run_apply args
+  | 7 :: args => run_parse args
+  | 11 :: args => RunCodec.run_codec (1 :: args)
+  | 12 :: args => RunCodec.run_codec (2 :: args)
+  | 13 :: args => RunCodec.run_codec (3 :: args)
+  | 21 :: args => RunBroker.run_broker args
   | _ => [4]
   end.
